@@ -6,10 +6,10 @@ VARIABLE i
 T == ndJsonDeserialize(IOEnv.TRACE_FILE)
 Init == i \in 1..Len(T)
 Next == \E k \in 1..Len(T[i].nb) : i' = T[i].nb[k]
-Clauses == {"NoSupportNoPermit", "UnanimousPermits", "BlockDefeatsUnanimous", "CountsMatch", "ReachedIsPermit", "NoRaise"}
+Clauses == {"NoSupportNoPermit", "UnanimousPermits", "BlockDefeatsUnanimous", "CountsMatch", "ReachedIsPermit", "MeetsCriterion", "NoRaise"}
 Holds(c, r) == CASE c = "NoSupportNoPermit" -> NoSupportNoPermit(r.cf, r.ballot, r.res) [] c = "UnanimousPermits" -> UnanimousPermits(r.cf, r.ballot, r.res)
                  [] c = "BlockDefeatsUnanimous" -> BlockDefeatsUnanimous(r.cf, r.ballot, r.res) [] c = "CountsMatch" -> CountsMatch(r.cf, r.ballot, r.res)
-                 [] c = "ReachedIsPermit" -> ReachedIsPermit(r.cf, r.ballot, r.res) [] c = "NoRaise" -> ~r.res.raised
+                 [] c = "MeetsCriterion" -> MeetsCriterion(r.cf, r.ballot, r.res) [] c = "ReachedIsPermit" -> ReachedIsPermit(r.cf, r.ballot, r.res) [] c = "NoRaise" -> ~r.res.raised
 Report == LET r == T[i]  pf == {c \in Clauses : ~Holds(c, r)} IN
           /\ (pf = {} \/ PrintT(<<"PF", i, pf>>))
           /\ (~Specified(r.cf) \/ Reached(r.cf, r.ballot) = r.res.reached \/ PrintT(<<"DR", i>>))
